@@ -435,7 +435,6 @@ pub fn c05_after(run: &mut Run, op: &Op, ret: Option<u32>, pre: C05Pre, out: &mu
             let id = ret.unwrap();
             if (id as usize) < pre.counters[*t] { bad("new-not-fresh", format!("new_{}() returned {id}, an id that already existed", snake(&th.types[*t].name))); }
             for i in 0..counters[*t] as u32 { if i != id && run.model.are_equal(*t, i, id) { bad("new-not-distinct", format!("new element {id} is equal to the existing element {i}")); } }
-            if quiet && !run.model.iter_type(*t).contains(&id) { bad("new-not-listed", format!("new element {id} is not yielded by iter_{}", snake(&th.types[*t].name))); }
         }
         Op::Define(r, _) | Op::NewEnum(_, r, _) => {
             let id = ret.unwrap();
